@@ -316,11 +316,6 @@ func (b *vBCase) run(ci int, variant string) *vRow {
 		DestFeatures:          ps.Features(),
 		BlindedPaymentPathSet: ps,
 	}
-	if b.session {
-		// paymentSession.RequestRoute does not hand the path set to
-		// findPath (only to newRoute)
-		restr.BlindedPaymentPathSet = nil
-	}
 	fin := finalHopParams{
 		amt:       lnwire.MilliSatoshi(c.amt),
 		totalAmt:  lnwire.MilliSatoshi(b.total),
@@ -347,32 +342,65 @@ func (b *vBCase) run(ci int, variant string) *vRow {
 	var (
 		path     []*unifiedEdge
 		diverged bool
+		sessRt   *route.Route
 	)
-	done := make(chan bool, 1)
-	go func() {
-		defer func() {
-			if x := recover(); x != nil {
-				if _, ok := x.(vDiverged); !ok {
-					panic(x)
+	if b.session {
+		// the REAL payment session: newPaymentSession (ToRouteHints) +
+		// RequestRoute (its own RestrictParams, block padding, newRoute)
+		pay := &LightningPayment{
+			Target:             target,
+			Amount:             lnwire.MilliSatoshi(b.total),
+			FeeLimit:           lnwire.MilliSatoshi(c.feeLimit),
+			CltvLimit:          c.cltvLim + uint32(finalCltv+BlockPadding),
+			FinalCLTVDelta:     finalCltv,
+			BlindedPathSet:     ps,
+			OutgoingChannelIDs: c.outChans,
+			LastHop:            restr.LastHop,
+			DestCustomRecords:  restr.DestCustomRecords,
+			MaxParts:           1,
+		}
+		if f := ps.Features(); f != nil && !f.IsEmpty() {
+			pay.DestFeatures = f.Clone()
+		}
+		var capt *vSessCapture
+		sessRt, capt, err, diverged = vDriveSession(c, pay, rec)
+		path = capt.path
+		row.SearchFinalD = uint32(finalCltv + BlockPadding)
+		if capt.called {
+			ls, _ := lastHopPayloadSize(capt.restr, capt.expiry,
+				lnwire.MilliSatoshi(c.amt))
+			row.LastSize = ls
+		}
+		if err == nil && sessRt == nil && !diverged {
+			err = errNoPathFound
+		}
+	} else {
+		done := make(chan bool, 1)
+		go func() {
+			defer func() {
+				if x := recover(); x != nil {
+					if _, ok := x.(vDiverged); !ok {
+						panic(x)
+					}
+					done <- true
 				}
-				done <- true
-			}
+			}()
+			path, _, err = findPath(
+				&graphParams{
+					graph:           &vRecGraph{vGraph: g, rec: rec},
+					additionalEdges: hints,
+					bandwidthHints:  &vHints{m: c.hints},
+				},
+				restr, cfg, g.nodes[c.self], g.nodes[c.src], target,
+				lnwire.MilliSatoshi(c.amt), 0, finalExpiry,
+			)
+			done <- false
 		}()
-		path, _, err = findPath(
-			&graphParams{
-				graph:           &vRecGraph{vGraph: g, rec: rec},
-				additionalEdges: hints,
-				bandwidthHints:  &vHints{m: c.hints},
-			},
-			restr, cfg, g.nodes[c.self], g.nodes[c.src], target,
-			lnwire.MilliSatoshi(c.amt), 0, finalExpiry,
-		)
-		done <- false
-	}()
-	select {
-	case diverged = <-done:
-	case <-time.After(vMaxSearch):
-		diverged, vAbort = true, true
+		select {
+		case diverged = <-done:
+		case <-time.After(vMaxSearch):
+			diverged, vAbort = true, true
+		}
 	}
 	evs := rec.snapshot()
 	if c.src == c.self && len(evs) > 0 && evs[0][0] == 0 {
@@ -402,10 +430,13 @@ func (b *vBCase) run(ci int, variant string) *vRow {
 		row.Path = append(row.Path, e)
 		prev = to
 	}
-	rt, err := newRoute(g.nodes[c.src], path, c.height, fin, ps)
-	if err != nil {
-		row.Err = "newRoute: " + err.Error()
-		return row
+	rt := sessRt
+	if !b.session {
+		rt, err = newRoute(g.nodes[c.src], path, c.height, fin, ps)
+		if err != nil {
+			row.Err = "newRoute: " + err.Error()
+			return row
+		}
 	}
 	row.Kind = "broute"
 	for i, h := range rt.Hops {
@@ -561,11 +592,10 @@ func vGenBCase(r *vrng) *vBCase {
 	case 1:
 		b.total = c.amt * 4
 	}
-	// Restrictions as paymentSession.RequestRoute builds them (no path set in
-	// RestrictParams, so lastHopPayloadSize sizes a CLEARTEXT final hop) are
-	// only generated on request: the harness does not drive the payment
-	// session itself (see notes/C19.md, doubts).
-	b.session = r.intn(6) == 0 && vEnvInt("VERIF_SESSION", 0) == 1
+	// 1/5 of the cases go through the REAL payment session (source = self):
+	// newPaymentSession + RequestRoute, which does not put the path set into
+	// RestrictParams.
+	b.session = r.intn(5) == 0 && c.src == c.self
 	if c.lastHop < 0 && r.intn(6) == 0 {
 		c.lastHop = 0
 	}
@@ -932,6 +962,21 @@ func vDirected() []struct {
 	y = mk(400000, pay(2, 1, 1000, 500000))
 	y.g.chans[1].InB = [2]int32{700, 2000}
 	out = append(out, dc{"directed:intro-inbound-surcharge", y})
+	// through the REAL payment session (RequestRoute keeps the path set out of
+	// RestrictParams): small and large encrypted data for the recipient
+	for _, v := range []struct {
+		name string
+		k, l int
+	}{
+		{"directed:session-intro-only", 0, 40},
+		{"directed:session-intro-only-large-encrypted-data", 0, 1215},
+		{"directed:session-two-blinded-hops-large-encrypted-data", 2, 560},
+	} {
+		w := mk(20000, pay(2, v.k, 1000, 500000))
+		w.pays[0].CtLens[len(w.pays[0].CtLens)-1] = v.l
+		w.session = true
+		out = append(out, dc{v.name, w})
+	}
 	// introduction-node-only path whose encrypted data makes findPath's own
 	// payload estimate land exactly on the limit (searched with the real
 	// lastHopPayloadSize)
